@@ -60,12 +60,25 @@ Step(st, op, v) ==
     [] op = "addx" -> Same([st EXCEPT !.hasx = 1], "")
     [] op = "extra_assign" -> IF st.hasx = 1 /\ v = Bad THEN Same(st, "TraitError")
                               ELSE Same([st EXCEPT !.xval = v], "")                      \* (no such trait: a plain attribute)
+    \* pv = PrototypedFrom("child", "value"): a value of its own (validated by the prototype's trait; 0 is a value like
+    \* any other) / deleting it restores the link
+    [] op = "pv_assign" -> IF v = Bad THEN Same(st, "TraitError") ELSE Same([st EXCEPT !.pvset = 1, !.pvval = v], "")
+    [] op = "pv_del" -> Same([st EXCEPT !.pvset = 0, !.pvval = 0], "")
     [] op = "child_items" -> IF v = Bad THEN Same(st, "TraitError") ELSE Same([st EXCEPT !.child.items = Append(@, v)], "")
 \* a copy: everything but the transient attribute (back at its default 0) - including the traits the object was given
 \* with add_trait: the copy's `extra` is still a validated attribute
 Copied(st) == [st EXCEPT !.tmp = 0]
+\* what the deferred attribute reads as
+PvRead(st) == IF st.pvset = 1 THEN st.pvval ELSE st.child.value
+\* copy_traits (behind clone_traits and __deepcopy__) ASSIGNS every copied trait by name: a PrototypedFrom attribute that
+\* was still linked becomes a value of its own on the copy (equal to what it read as).  The statement speaks of equal
+\* values, not of links: modelled as the code does it.  Pickling carries the __dict__: linked stays linked.
+IsPickle(kind) == kind \in {"p0", "p1", "p2", "p3", "p4", "p5"}
+CopiedAs(st, kind) == IF IsPickle(kind) THEN Copied(st) ELSE [Copied(st) EXCEPT !.pvset = 1, !.pvval = PvRead(st)]
 \* Named deviation (known finding C14/F22): pickling, deep copying and clone_traits carry the VALUE of a trait added with
 \* add_trait but not the trait: on the copy the name is an ordinary, unvalidated attribute
 KF22Guard(pre) == pre.hasx = 1
-Copied_KF22(st) == [Copied(st) EXCEPT !.hasx = 0]
+Copied_KF22(st, kind) == [CopiedAs(st, kind) EXCEPT !.hasx = 0]
+\* ... and clone_traits(copy="deep") does not carry the value either (the name is not a trait of the copy at all)
+Copied_KF22_deep(st, kind) == [CopiedAs(st, kind) EXCEPT !.hasx = 0, !.xval = 0]
 =============================================================================
